@@ -233,6 +233,82 @@ def oracle_bytes(c: Case, tr: Trace):
     return None
 
 
+# ---------------------------------------------------------------- contrib/check_bytes.hpp: oracle-only part
+# check_bytes< N > lets the rule run unrestricted and throws afterwards when it consumed more than N bytes; it is not in the
+# Lean model (it throws a parse_error directly, without a raise hook).  Judged on the implementation's own trace.
+
+CB_ID = 1999998
+
+
+def oracle_check_bytes(c: Case, tr: Trace):
+    n = c.g.limit
+    stack = []          # [id, start byte, byte at the rule's own success hook or None]
+    for l in tr.events:
+        p = l.split()
+        t = p[0]
+        if t == 'E':
+            stack.append([int(p[1]), int(p[4]), None])
+        elif t == 'su' and stack and stack[-1][0] == int(p[1]):
+            stack[-1][2] = int(p[2])
+        elif t == 'X':
+            fr = stack.pop()
+            if fr[0] not in c.g.guarded:
+                continue
+            if fr[2] is None:
+                if p[2] == '1':
+                    return f"guarded rule {fr[0]} returned true without a success hook"
+                continue        # local failure or an exception from inside: check_bytes does nothing
+            used = fr[2] - fr[1]
+            if used > n and p[2] != '2':
+                return f"check_bytes<{n}>: rule {fr[0]} started at {fr[1]} consumed {used} bytes and returned {p[2]} (must end in a parse_error)"
+            if used <= n and p[2] != '1':
+                return f"check_bytes<{n}>: rule {fr[0]} started at {fr[1]} consumed {used} <= {n} bytes but the invocation ended with {p[2]}"
+    r = tr.result.split()
+    if r[1] == '2' and len(r) > 6 and r[5] == 'P' and int(r[6]) == CB_ID and 'WHAT-MISMATCH' in tr.result:
+        return f"what() of the check_bytes error is not source:line:column: message: {tr.result}"
+    return None
+
+
+def check_bytes_part(v, cov, rng, tier):
+    from . import diffrun
+    cases = []
+    groups = bytes_grammars(rng, tier)
+    for g, roots, meta in groups:
+        if g.shape in ('lookahead', 'eolf'):
+            continue
+        for nid in g.guarded:
+            g.acts[nid] = ActSpec(wrap=f"cb:{g.limit}")
+        g.gid = 'c' + g.gid
+        g.ns = f"g_{g.gid}"
+        g.resolve()          # the C++ spellings of the named rules carry the namespace
+        for root in roots:
+            for (a, m) in ((1, 'r'), (0, 'o')):
+                for j, d in enumerate(g.custom_inputs[: (40 if tier == 'quick' else 200)]):
+                    cases.append(Case(f"{g.gid}_{root}_{a}{m}_{j}", g, Config(root, a, m, 'lf_crlf', 0, 1, 0), d))
+    res = diffrun.run_impl(cases, per_tu=2, tag='C18_cb')
+    st = {'grammars': len({c.g.gid for c in cases}), 'cases': len(cases), 'traces': len(res.traces), 'limit_errors': 0, 'compile_errors': len(res.compile_errors)}
+    for e in res.compile_errors[:3]:
+        v.broke("check_bytes driver no longer compiles against /repo: " + e[:2000])
+    for cid, msg in res.crashes[:3]:
+        v.broke(f"check_bytes driver aborted ({cid}): " + msg[:1500])
+    by_id = {c.cid: c for c in cases}
+    for cid, tr in res.traces.items():
+        c = by_id.get(cid)
+        if c is None or not tr.result:
+            continue
+        r = tr.result.split()
+        if r[1] == '2' and len(r) > 6 and r[5] == 'P' and int(r[6]) == CB_ID:
+            st['limit_errors'] += 1
+        msg = oracle_check_bytes(c, tr) or oracle_frame(c, tr)
+        if msg and len(v.violations) < 5:
+            from .gram import grammar_to_json
+            v.failing_input({'oracle': 'check_bytes', 'what': msg, 'grammar_def': grammar_to_json(c.g), 'grammar': c.g.proto_lines(), 'limit': c.g.limit,
+                             'config': {k: getattr(c.cfg, k) for k in ('root', 'a', 'm', 'eol', 'lazy', 'unwind', 'fam')},
+                             'input_hex': c.data.hex(), 'observed': {'events': tr.events[:200], 'result': tr.result}})
+    cov['check_bytes'] = st
+    cov['evaluations'] += st['traces']
+
+
 def custom_inputs(rng, g, tier):
     return g.custom_inputs
 
@@ -245,7 +321,7 @@ def run(tier: str) -> int:
     pb = Profile('bytes', bytes_grammars,
                  lambda g, root, tier: [Config(root, a, m, 'lf_crlf', lz, 1, 0) for (a, m, lz) in ((1, 'r', 0), (1, 'o', 1), (0, 'o', 0))],
                  custom_inputs, [('frame', oracle_frame), ('bytes', oracle_bytes)], per_tu=1, fuel=400)
-    return engine.run_engine('C18', tier, ['PegtlVerif.Props.C18'], [pd, pb])
+    return engine.run_engine('C18', tier, ['PegtlVerif.Props.C18'], [pd, pb], extra=lambda v, cov, rng: check_bytes_part(v, cov, rng, tier))
 
 
 def replay(path: str) -> int:
